@@ -612,6 +612,9 @@ class ExprMixin:
             length = z3.simplify(self.ite(st, hi > lo, hi - lo, z3.IntVal(0)))
             st.assume(z3.ForAll([k], z3.Implies(z3.And(k >= 0, k < length), new_elems[k] == src[z3.simplify(lo + k)]),
                                 patterns=[new_elems[k]]))
+            # the same relation indexed by the source position, so that a term src[j] produces new[j - lo]
+            st.assume(z3.ForAll([k], z3.Implies(z3.And(k >= lo, k < lo + length), new_elems[z3.simplify(k - lo)] == src[k]),
+                                patterns=[src[k]]))
         return st.new_seq(et, base.t[0], length, new_elems, "slice")
 
     # ---- list operations ---------------------------------------------------------------------------------------------------
@@ -750,7 +753,11 @@ class ExprMixin:
             s2.assume(z3.And(base >= alloc0, endc <= alloc1))
             s2.alloc = base
             try:
-                self.assign(s2, target, seq.get(s2, i))
+                first = seq.get(s2, i)
+                if first.z is not None and z3.is_app(first.z) and first.z.decl().kind() == z3.Z3_OP_SELECT \
+                        and first.z.arg(1).get_id() == i.get_id():
+                    self._last_elem_term = first.z
+                self.assign(s2, target, first)
                 v = self.eval(s2, elt)
             except PyRaise as e:
                 results.append(("raise", e, s2.pc[mark:], None, s2))
@@ -775,6 +782,8 @@ class ExprMixin:
 
     def _assemble_comprehension(self, st: State, n_len, packed, et_hint, kind="list"):
         (i, fresh, results, alloc0, alloc1, base, endc) = packed
+        elem_term = getattr(self, "_last_elem_term", None)
+        self._last_elem_term = None
         oks = [r for r in results if r[0] == "ok"]
         for r in results:
             if r[0] == "raise":
@@ -844,7 +853,10 @@ class ExprMixin:
                             body.append(st.map("f_" + fname, self.ctx.sort_of(t))[ref] == st.coerce(val, t).z)
             conj = z3.Implies(z3.And(*guards), z3.And(*body)) if guards else z3.And(*body)
             (conj_f,), submap = self._functionize(i, fresh, [conj])
-            st.assume(z3.ForAll([i], z3.Implies(z3.And(i >= 0, i < n_len), conj_f), patterns=[res_elems[i]]))
+            pats = [res_elems[i]]
+            if elem_term is not None:
+                pats.append(elem_term)
+            st.assume(z3.ForAll([i], z3.Implies(z3.And(i >= 0, i < n_len), conj_f), patterns=pats))
         # reference intervals of different iterations are disjoint (objects of iteration i precede those of j > i)
         bf = z3.Function(base.decl().name() + "_f", z3.IntSort(), z3.IntSort())
         ef = z3.Function(endc.decl().name() + "_f", z3.IntSort(), z3.IntSort())
